@@ -12,6 +12,9 @@ LEMMAS = [
     {
         "id": "L1-two-month-week-days-unreachable",
         "function": "tz::timezone::rule::check_two_month_week_days",
+        # if the private function is renamed or moved: the one crate function taking two month/week/day rule days and
+        # two day times and answering with a boolean
+        "signature": {"params": {"MonthWeekDay": 2, "i64": 2}, "ret": "bool"},
         "kind": "PANIC-CALL",
         "max_n": 1,
         "cannot": "needs `(m2 - m1) rem_euclid 12 == 0  <=>  months equal` and the case split on (week_before, week_after); modular arithmetic is outside the domain",
@@ -21,7 +24,7 @@ LEMMAS = [
         "id": "L2-buffer-list-count",
         # the buffer list's implementation of its (crate-private) list trait's push, whatever trait and method are called
         "function": "<tz::datetime::find::FoundDateTimeListRefMut<'_> as tz::datetime::find::DateTimeList>::push",
-        "function_re": r"<tz::datetime::find::FoundDateTimeListRefMut<'_> as tz::datetime::find::\w+>::\w+",
+        "function_re": r"<tz::[\w:]*FoundDateTimeListRefMut<'_> as tz::[\w:]+>::\w+",
         "kind": "ASSERT:overflow:Add",
         "max_n": 1,
         "cannot": "counting argument over the whole search (number of pushes per call), not a per-site fact",
@@ -80,14 +83,42 @@ def apply_contract(I, S, callee, args, ret):
     return Enum(ret.path, ret.variants, when), True
 
 
-def classify(obligations, instance_paths):
+def by_signature(facts, spec):
+    """Names of the crate functions (not closures) whose parameter and return types fit `spec`."""
+    out = []
+    for inst in facts.instances:
+        if inst.get("closure"):
+            continue
+        body = inst["body"]
+        ins = [facts.ty_canon(body["locals"][i + 1]["ty"]) for i in range(body["arg_count"])]
+        ret = facts.ty_canon(body["locals"][0]["ty"])
+        if ret != spec["ret"] or len(ins) != sum(spec["params"].values()):
+            continue
+        cnt = {}
+        for t in ins:
+            k = t.lstrip("&").rsplit("::", 1)[-1]
+            cnt[k] = cnt.get(k, 0) + 1
+        if cnt == spec["params"]:
+            out.append(inst["name"])
+    return out
+
+
+def classify(obligations, instance_paths, facts=None):
     """Split failing obligations into lemma-covered and genuine. Returns (by_lemma, remaining, anchor_errors)."""
     import re
+
+    alias = {}
+    if facts is not None:
+        for row in LEMMAS:
+            if "signature" in row and row["function"] not in instance_paths:
+                c = by_signature(facts, row["signature"])
+                if len(c) == 1:
+                    alias[row["id"]] = c[0]
 
     def matches(row, name):
         if "function_re" in row:
             return re.fullmatch(row["function_re"], name) is not None
-        return name == row["function"]
+        return name == alias.get(row["id"], row["function"])
 
     anchors = []
     for row in LEMMAS:
